@@ -171,6 +171,9 @@ def _lattice_crit(rnd):
     hi = [lo[0] + rnd.randint(1, 4), lo[1] + rnd.randint(1, 4)]
     ref = {'kind': 'patch', 'ax': rnd.randint(1, 3), 'h': rnd.randint(-1, 4), 'lo': lo, 'hi': hi,
            'up': rnd.random() < 0.5, 'cells': rnd.random() < 0.5, 'sliver': rnd.choice((0, 0, 2, 3))}
+    if rnd.random() < 0.4:
+        # a reference with a crease: a wall hanging from one edge of the plate (faces of the mesh may be draped over it)
+        ref.update({'sliver': 0, 'wall': rnd.randint(1, 4), 'wup': rnd.random() < 0.5})
     return _near(ref, rnd.random() < 0.5, rnd.randint(0, 12),
                  rnd.randint(0, 8) if rnd.random() < 0.5 else None,
                  rnd.choice(DEGS) if rnd.random() < 0.6 else None, True)
